@@ -588,3 +588,8 @@ MUTANTS += [
     M("c10-ratelimit-counts-crlf", ["C10"], CONN, "		if t := conn.rateLimit(len(line)); t != 0 {", "		if t := conn.rateLimit(len(line) + 240); t != 0 {", note="only the wire leg can see how write() calls rateLimit"),
     M("c10-sleep-capped-3s", ["C10"], CONN, "			<-time.After(t)", "			if t > 3*time.Second {\n				t = 3 * time.Second\n			}\n			<-time.After(t)", note="long lines are held for less than their charge"),
 ]
+
+MUTANTS += [
+    M("c18-direct-dial-no-tls", ["C18"], CONN, "	if conn.cfg.SSL {\n		logging.Info(\"irc.Connect(): Performing SSL handshake.\")", "	if conn.cfg.SSL && conn.cfg.Proxy != \"\" {\n		logging.Info(\"irc.Connect(): Performing SSL handshake.\")", note="only the loopback leg dials without a proxy"),
+    M("c18-direct-dial-drops-pass", ["C18"], H, "	if conn.cfg.Pass != \"\" {\n		conn.Pass(conn.cfg.Pass)\n	}", "	if conn.cfg.Pass != \"\" && (conn.cfg.Proxy != \"\" || !conn.cfg.SSL) {\n		conn.Pass(conn.cfg.Pass)\n	}", note="PASS omitted on direct TLS connections"),
+]
